@@ -262,6 +262,27 @@ func (w *World) lockFlow(r *Report, fn *ssa.Function, ct *types.Named, st *types
 					}
 				}
 			case *ssa.Return:
+				// the map itself handed out of the function: whoever receives it reads
+				// (or writes) it outside any critical section
+				for ri := range x.Results {
+					rv := strip(retVal(x, ri))
+					fi, ok := mapVals[rv]
+					if !ok {
+						// a result variable (spilled because of a defer): what was stored in it
+						if ld, isLd := rv.(*ssa.UnOp); isLd && ld.Op == token.MUL {
+							if a, isA := ld.X.(*ssa.Alloc); isA {
+								for _, stt := range cellStores(a) {
+									if f2, ok2 := mapVals[strip(stt.Val)]; ok2 {
+										fi, ok = f2, true
+									}
+								}
+							}
+						}
+					}
+					if ok && report && mutable[fi] {
+						r.bad("K-LOCK", fmt.Sprintf("%s:escape %s", fnName(fn), st.Field(fi).Name()), w.instrPos(x), fmt.Sprintf("the map in field %s is returned to the caller: it is then looked up or iterated after the lock has been released, racing with an insertion under the write lock", st.Field(fi).Name()))
+					}
+				}
 				if report {
 					key := fmt.Sprintf("%s:return", fnName(fn))
 					eff := s
